@@ -801,54 +801,65 @@ def judge_presence(ctx, cnt, spec, real, case_id):
 
 
 def judge_rename(ctx, cnt, spec, real, case_id):
-    """rename-to produces a mutually consistent shadows/shadowed-by pair"""
+    """rename-to produces a mutually consistent shadows/shadowed-by pair.  A static function that the
+    scanner moves into a type is written twice (the moved-to original and its copy, under different
+    names): the pair is looked for among all copies of a symbol."""
     elems = real['elems']
     intents = {}
     for b in spec['blocks']:
         o = ann_opts(b, 'rename-to')
         if o and len(o) == 1 and ('fn:' + b['key']) in elems:
             intents[b['key']] = o[0]
-    fns = dict((a[3:], e) for a, e in elems.items() if a.startswith('fn:') and '#' not in a)
+    fns = {}
+    for a, e in elems.items():
+        if a.startswith('fn:'):
+            fns.setdefault(a[3:].split('#')[0], []).append(e)
+    if any(len(l) > 1 for l in fns.values()):
+        cnt.hit('rename:namespace-with-function-copies')
     targets = list(intents.values())
-    for sym, e in fns.items():
-        sh = e['rec']['attrs'].get('shadows')
-        sb = e['rec']['attrs'].get('shadowed-by')
-        if sh is not None:
-            cnt.hit('rename:shadows-seen')
-            t = intents.get(sym)
-            te = fns.get(t) if t else None
-            ok = te is not None and te['name'] == sh and te['rec']['attrs'].get('shadowed-by') == e['name']
-            if not ok:
-                ctx.report_failure('rename-pair:%s:%s' % (case_id, sym),
-                                   '%s is written shadows=%r but %r is not written shadowed-by=%r'
-                                   % (sym, sh, t, e['name']), {'kind': 'case', 'spec': spec})
-        if sb is not None:
-            cnt.hit('rename:shadowed-by-seen')
-            srcs = [s for s, t in intents.items() if t == sym and s in fns and fns[s]['name'] == sb
-                    and fns[s]['rec']['attrs'].get('shadows') == e['name']]
-            if len(srcs) != 1:
-                if sym in intents and intents[sym] == sym:
-                    key = 'rename-self'
-                else:
-                    key = 'rename-pair:%s:%s' % (case_id, sym)
-                ctx.report_failure(key, '%s is written shadowed-by=%r but no function named %r that was asked to '
-                                   'rename to it is written shadows=%r' % (sym, sb, sb, e['name']),
-                                   {'kind': 'case', 'spec': spec})
+
+    def sh(e):
+        return e['rec']['attrs'].get('shadows')
+
+    def sb(e):
+        return e['rec']['attrs'].get('shadowed-by')
+    for sym, copies in fns.items():
+        for e in copies:
+            if sh(e) is not None:
+                cnt.hit('rename:shadows-seen')
+                t = intents.get(sym)
+                ok = t is not None and any(te['name'] == sh(e) and sb(te) == e['name'] for te in fns.get(t, []))
+                if not ok:
+                    ctx.report_failure('rename-pair:%s:%s' % (case_id, sym),
+                                       '%s is written shadows=%r but %r is not written shadowed-by=%r'
+                                       % (sym, sh(e), t, e['name']), {'kind': 'case', 'spec': spec})
+            if sb(e) is not None:
+                cnt.hit('rename:shadowed-by-seen')
+                srcs = [s for s, t in intents.items() if t == sym
+                        and any(c['name'] == sb(e) and sh(c) == e['name'] for c in fns.get(s, []))]
+                if len(srcs) != 1:
+                    if sym in intents and intents[sym] == sym:
+                        key = 'rename-self'
+                    else:
+                        key = 'rename-pair:%s:%s' % (case_id, sym)
+                    ctx.report_failure(key, '%s is written shadowed-by=%r but no function named %r that was asked to '
+                                       'rename to it is written shadows=%r' % (sym, sb(e), sb(e), e['name']),
+                                       {'kind': 'case', 'spec': spec})
     # presence for simple, uncontested requests
     for s, t in intents.items():
-        sb = next(x for x in spec['blocks'] if x['key'] == s)
+        blk = next(x for x in spec['blocks'] if x['key'] == s)
         simple = (t in fns and t != s and targets.count(t) == 1 and t not in intents and s not in targets
-                  and wellformed(sb))
+                  and wellformed(blk))
         if not simple:
             cnt.hit('rename:outside-contested-or-missing-target')
             continue
         cnt.hit('rename:simple-checked')
-        if fns[s]['rec']['attrs'].get('shadows') != fns[t]['name'] or \
-                fns[t]['rec']['attrs'].get('shadowed-by') != fns[s]['name']:
+        if not any(sh(c) == te['name'] and sb(te) == c['name'] for c in fns[s] for te in fns[t]):
             ctx.report_failure('rename-presence:%s:%s' % (case_id, s),
                                "%s: (rename-to %s) should give shadows=%r / shadowed-by=%r; GIR has %r / %r"
-                               % (s, t, fns[t]['name'], fns[s]['name'], fns[s]['rec']['attrs'].get('shadows'),
-                                  fns[t]['rec']['attrs'].get('shadowed-by')), {'kind': 'case', 'spec': spec})
+                               % (s, t, [te['name'] for te in fns[t]], [c['name'] for c in fns[s]],
+                                  [sh(c) for c in fns[s]], [sb(te) for te in fns[t]]),
+                               {'kind': 'case', 'spec': spec})
 
 
 def judge_roles(ctx, cnt, spec, real, case_id):
@@ -930,45 +941,44 @@ def judge_absence(ctx, cnt, spec, real, idx, gobject_gir, case_id):
             continue
         if x is not None and y is not None:
             sx, sy = x['serial'], y['serial']
+            # effects the statement itself ties to the removed block; several can meet on one element (a block
+            # carrying (method) and (rename-to)), so the attributes they may touch are collected first
+            allowed = []
+            acc = ['glib:set-property', 'glib:get-property']
             # the partner of a rename-to pair (and functions whose competing request now succeeds)
             if addr.startswith('fn:') and target is not None and target.startswith('fn:') and (
                     ann_opts(b, 'rename-to') is not None
                     or any((ann_opts(o, 'rename-to') or [None])[0] == b['key'] for o in spec['blocks'])):
-                if strip_attrs(sx, ['shadows', 'shadowed-by']) == strip_attrs(sy, ['shadows', 'shadowed-by']):
-                    cnt.hit('absence:allowed-rename-partner')
-                    continue
+                allowed.append(('rename-partner', ['shadows', 'shadowed-by']))
             # skip on a type makes callables and fields that mention the type non-introspectable
             if ann_opts(b, 'skip') is not None and target is not None and target.startswith('type:'):
-                if strip_attrs(sx, ['introspectable']) == strip_attrs(sy, ['introspectable']):
-                    cnt.hit('absence:allowed-skip-propagation')
-                    continue
+                allowed.append(('skip-propagation', ['introspectable']))
             # a property naming its accessor: the accessor carries the back reference
             if target is not None and target.startswith('prop:') and addr.startswith('fn:') and \
                     (ann_opts(b, 'setter') or ann_opts(b, 'getter')):
-                if strip_attrs(sx, ['glib:set-property', 'glib:get-property']) == \
-                        strip_attrs(sy, ['glib:set-property', 'glib:get-property']):
-                    cnt.hit('absence:allowed-accessor-backref')
-                    continue
+                allowed.append(('accessor-backref', acc))
             # the accessor heuristic: a property finds (or loses) its getter/setter among the methods by name
             if target is not None and target.startswith('fn:') and addr.startswith('prop:'):
-                if strip_attrs(sx, ['setter', 'getter']) == strip_attrs(sy, ['setter', 'getter']):
-                    cnt.hit('absence:allowed-accessor-heuristic')
-                    continue
+                allowed.append(('accessor-heuristic', ['setter', 'getter']))
             # ... and then only the chosen getter keeps the inferred glib:get-property: when the documented
             # function enters or leaves the candidates of property P (a role annotation renames it), a sibling
             # candidate gains or loses its inferred back reference to P
             if target is not None and target.startswith('fn:') and addr.startswith('fn:'):
-                acc = ['glib:set-property', 'glib:get-property']
-                if strip_attrs(sx, acc) == strip_attrs(sy, acc):
-                    props = set()
-                    for e in (x, y):
-                        for a in acc:
-                            if e['rec']['attrs'].get(a) is not None:
-                                props.add(e['rec']['attrs'][a].replace('-', '_'))
-                    tnames = set(e2[target]['name'] for e2 in (a_el, b_el) if target in e2)
-                    if any(tn in (pn, 'get_' + pn, 'is_' + pn, 'set_' + pn) for tn in tnames for pn in props):
-                        cnt.hit('absence:allowed-accessor-sibling-candidate')
-                        continue
+                props = set()
+                for e in (x, y):
+                    for a in acc:
+                        if e['rec']['attrs'].get(a) is not None:
+                            props.add(e['rec']['attrs'][a].replace('-', '_'))
+                tnames = set(e2[target]['name'] for e2 in (a_el, b_el) if target in e2)
+                if any(tn in (pn, 'get_' + pn, 'is_' + pn, 'set_' + pn) for tn in tnames for pn in props):
+                    allowed.append(('accessor-sibling-candidate', acc))
+            if allowed:
+                every = [n for _l, names in allowed for n in names]
+                if strip_attrs(sx, every) == strip_attrs(sy, every):
+                    for label, names in allowed:
+                        if strip_attrs(sx, names) != sx or strip_attrs(sy, names) != sy:
+                            cnt.hit('absence:allowed-' + label)
+                    continue
             # a virtual method inherits from its invoker / from its slot's field documentation
             if addr.startswith('vfunc:'):
                 own = blocks_for(spec, addr)
